@@ -78,7 +78,7 @@ def run(c):
                 c.oracle_fail(l, "generated code panics", l)
             if not a.startswith("ok "):
                 continue
-            o = dict(p.split("=", 1) for p in a.split(" ")[1:])
+            o = dict(p.split("=", 1) for p in a.split(" ")[1:] if "=" in p)
             f = l.split(" ")
             step2.setdefault("codec.r2 %s %s %s %s" % (f[1], f[2], f[3], o["w2"]), []).append((l, o["w1b"]))
         # step 2 (tied): R2 of those bytes -> W1
@@ -89,7 +89,7 @@ def run(c):
                 if not a.startswith("ok "):
                     fails.append((l, "TL2 bytes converted from a valid TL1 value are rejected by ReadTL2 (%s)" % a))
                     continue
-                o = dict(p.split("=", 1) for p in a.split(" ")[2:])
+                o = dict(p.split("=", 1) for p in a.split(" ")[2:] if "=" in p)
                 if o.get("w1b") != w1b:
                     fails.append((l, "TL1 -> TL2 -> TL1 does not give back the TL1 bytes: %s became %s (TL2 %s)" % (w1b[:80], o.get("w1b", "")[:80], l2.split(" ")[4][:80])))
         # step 3 (implementation only): the whole chain in one process, with the JSON of the value before and after
@@ -100,7 +100,7 @@ def run(c):
                 fails.append(("codec.x2 " + l.split(" ", 1)[1], "generated code panics in the chain ReadTL1 -> WriteTL2 -> ReadTL2 -> WriteTL1 / WriteJSON (%s)" % a))
             if not a.startswith("ok "):
                 continue
-            o = dict(p.split("=", 1) for p in a.split(" ")[1:])
+            o = dict(p.split("=", 1) for p in a.split(" ")[1:] if "=" in p)
             x2 = "codec.x2 " + l.split(" ", 1)[1]
             if "j1" not in o:
                 fails.append((x2, "ReadTL2 rejects the TL2 conversion of a valid TL1 value (%s)" % o.get("r2")))
